@@ -263,6 +263,7 @@ def saturation(data, max_voltage, v_per_sec=1e-8, fs=30_000, proportion=0.2, mut
     # apply a cosine taper to the saturation to create a mute function
     win = scipy.signal.windows.cosine(mute_window_samples)
     mute = np.maximum(0, 1 - scipy.signal.convolve(saturation, win, mode='same'))
+    mute[saturation] = 0  # a taper with an even number of samples has no central sample equal to 1
     return saturation, mute
 
 
